@@ -35,6 +35,8 @@ def check(model: Model, rep: Report, tier: str):
     q4_q5(model, rep)
     q6(model, rep)
     q7(model, rep)
+    q9(model, rep)
+    q8(model, rep)
 
 
 def q1(model: Model, rep: Report):
@@ -699,3 +701,331 @@ def q7(model: Model, rep: Report):
             and _strip_lines(comps[0][3][0][0]) == _strip_lines(("call", ("attr", pcon, "get_edges"), (), (("qubit", pq),))) and comps[0][2][0] == "call" and comps[0][2][1] == ("fn", "Operation.type_gate")
     rep.check(okp, "C16.Q7", "OperationConstraint.get_possible_operations", po.loc, found=[show(p.value)[:120] for p in pps], required="idle(q), park(q) and gate(e) for EVERY edge e of q",
               what="some operation a qubit could perform is not considered (and therefore never forbidden or allowed)", detail="possible")
+
+
+# ---------------------------------------------------------------------------------------------
+# Q9 -- device primitives the skeletons of Q3..Q7 are written in
+# ---------------------------------------------------------------------------------------------
+def _args_of(c: Term) -> List[Term]:
+    return list(c[2]) + [v for _, v in c[3]]
+
+
+def _is_method_call(t: Term, name: str) -> bool:
+    return t[0] == "call" and isinstance(t[1], tuple) and t[1][0] == "attr" and t[1][2] == name
+
+
+def _return_paths(model: Model, f: FunctionInfo, cls=None):
+    pe = PathEnumerator(Evaluator(model, inline_methods=False))
+    ps = pe.function_paths(f, self_cls=cls)
+    return [p for p in ps if p.exit == "return"], [p for p in ps if p.exit == "raise"]
+
+
+def _as_comp(p: Path, v: Term) -> Term:
+    from ..extreme import fuse_comprehensions
+    from ..listflow import resolve_lists
+    from .common import devar
+    return devar(fuse_comprehensions(resolve_lists(p, v)))
+
+
+def q9(model: Model, rep: Report):
+    rep.rule("C16.Q9", "device primitives: EdgeIDObj.contains(q) == q is one of its two qubits; get_connected_qubit_id(q) == the other qubit (raises for a foreign qubit); "
+                       "qubit_ids == both qubits; Surface17Layer.get_edges(q) == every device edge that contains q (whole edge table, no other filter); "
+                       "get_neighbors(q) == the partner of q on every such edge; get_frequency_group_identifier(q) == the table entry of q; "
+                       "get_neighbors(edge) == the neighbours of BOTH its qubits")
+    from ..listflow import as_flatmap
+    E = model.cls("EdgeIDObj")
+    L = model.cls("Surface17Layer")
+    s = sym("self")
+    q0, q1 = ("attr", s, "qubit_id0"), ("attr", s, "qubit_id1")
+    # -- EdgeIDObj.contains ----------------------------------------------------------------------
+    f = E.resolve("contains")
+    ev = Evaluator(model)
+    el = sym([p for p in f.param_names if p != f.self_name][0])
+    formula = bool_value(ev.eval_function(f, self_cls=E))
+    ats = atoms_of(formula)
+    eq = lambda x, y: [a for a in ats if a in (t_cmp("==", x, y), t_cmp("==", y, x))]
+    e0, e1 = eq(q0, el), eq(q1, el)
+    member = [a for a in ats if a[0] == "in" and a[1] == el]
+    if len(member) == 1 and len(ats) == 1 and formula == member[0]:
+        dom = member[0][2]
+        if dom == ("attr", s, "qubit_ids") and "qubit_ids" in E.properties:
+            dom = Evaluator(model).value_of(E.properties["qubit_ids"], self_cls=E)
+        items = set(dom[1]) if dom[0] in ("list", "tuple", "set") else None
+        if items is None:
+            raise AnalysisError(f"EdgeIDObj.contains: membership domain not read: {show(dom)}")
+        rep.check(items == {q0, q1}, "C16.Q9", "EdgeIDObj.contains", f.loc, found=show(formula), required="element in (qubit_id0, qubit_id1)", what="an edge does not report exactly its two qubits as contained", detail="contains")
+    elif set(ats) <= set(e0[:1] + e1[:1]):
+        bad = []
+        for v0, v1 in itertools.product((TRUE, FALSE), repeat=2):
+            env = {}
+            if e0:
+                env[e0[0]] = v0
+            if e1:
+                env[e1[0]] = v1
+            got = subst(formula, env) if env else formula
+            if got not in (TRUE, FALSE):
+                raise AnalysisError(f"EdgeIDObj.contains does not reduce: {show(got)}")
+            if (got == TRUE) != (v0 == TRUE or v1 == TRUE):
+                bad.append(f"q==qubit_id0:{v0 == TRUE}, q==qubit_id1:{v1 == TRUE} -> {got == TRUE}")
+        rep.check(not bad, "C16.Q9", "EdgeIDObj.contains", f.loc, found="; ".join(bad) or show(formula), required="element == qubit_id0 or element == qubit_id1",
+                  what="an edge does not report exactly its two qubits as contained: " + "; ".join(bad), detail="contains")
+    else:
+        raise AnalysisError(f"EdgeIDObj.contains: formula not recognised: {show(formula)}")
+    # -- EdgeIDObj.get_connected_qubit_id ------------------------------------------------------------
+    f = E.resolve("get_connected_qubit_id")
+    el = sym([p for p in f.param_names if p != f.self_name][0])
+    rets, raises = _return_paths(model, f, E)
+    a0, a1 = t_cmp("==", q0, el), t_cmp("==", q1, el)
+    bad = []
+    seen = {"0": False, "1": False}
+    for p in rets:
+        c = p.cond
+        ats = atoms_of(c)
+        norm = {}
+        for a in ats:
+            if a in (a0, t_cmp("==", el, q0)):
+                norm[a] = "a0"
+            elif a in (a1, t_cmp("==", el, q1)):
+                norm[a] = "a1"
+            else:
+                raise AnalysisError(f"EdgeIDObj.get_connected_qubit_id: guard not recognised: {show(a)}")
+        for v0, v1 in ((TRUE, FALSE), (FALSE, TRUE)):
+            env = {a: (v0 if k == "a0" else v1) for a, k in norm.items()}
+            if subst(c, env) == TRUE:
+                want = q1 if v0 == TRUE else q0
+                seen["0" if v0 == TRUE else "1"] = True
+                if p.value != want:
+                    bad.append(f"for element == {'qubit_id0' if v0 == TRUE else 'qubit_id1'} returns {show(p.value)}")
+    for v0, v1 in ((FALSE, FALSE),):
+        for p in rets:
+            env = {}
+            for a in atoms_of(p.cond):
+                env[a] = FALSE
+            if subst(p.cond, env) == TRUE:
+                bad.append(f"returns {show(p.value)} for a qubit that is not part of the edge")
+    if not all(seen.values()):
+        bad.append("no partner returned for one of the two qubits")
+    rep.check(not bad, "C16.Q9", "EdgeIDObj.get_connected_qubit_id", f.loc, found="; ".join(bad) or "qubit_id0 -> qubit_id1, qubit_id1 -> qubit_id0, otherwise raises",
+              required="the other qubit of the edge; raises for a foreign qubit", what="the partner of a qubit on an edge is wrong: " + "; ".join(bad), detail="partner")
+    # -- EdgeIDObj.qubit_ids --------------------------------------------------------------------------
+    if "qubit_ids" in E.properties:
+        fq = E.properties["qubit_ids"]
+        v = Evaluator(model).value_of(fq, self_cls=E)
+        ok = v[0] in ("list", "tuple") and sorted(map(show, v[1])) == sorted(map(show, (q0, q1))) and len(v[1]) == 2
+        rep.check(ok, "C16.Q9", "EdgeIDObj.qubit_ids", fq.loc, found=show(v), required="[qubit_id0, qubit_id1]", what="an edge does not list exactly its two qubits", detail="qubit_ids")
+    else:
+        raise AnalysisError("EdgeIDObj.qubit_ids not found")
+    # -- Surface17Layer.get_edges ------------------------------------------------------------------------
+    f = L.resolve("get_edges")
+    qn = sym([p for p in f.param_names if p != f.self_name][0])
+    rets, _ = _return_paths(model, f, L)
+    table = (("attr", s, "_qubit_edges"), ("attr", s, "edge_ids"))
+    if len(rets) != 1:
+        raise AnalysisError(f"Surface17Layer.get_edges: {len(rets)} return paths")
+    v = _as_comp(rets[0], rets[0].value)
+    if v[0] != "comp" or len(v[3]) != 1:
+        raise AnalysisError(f"Surface17Layer.get_edges: not read as one filtered scan: {show(v)[:160]}")
+    dom, conds = v[3][0]
+    bad = []
+    if dom not in table:
+        bad.append(f"ranges over {show(dom)} instead of the whole edge table")
+    if v[2][0] != "bound":
+        bad.append(f"yields {show(v[2])} instead of the scanned edge")
+    okc = len(conds) == 1 and (_is_method_call(conds[0], "contains") and conds[0][1][1] == v[2] and _args_of(conds[0]) == [qn]
+                               or conds[0] == ("in", qn, ("attr", v[2], "qubit_ids")))
+    if not okc:
+        bad.append(f"filter is {[show(c) for c in conds]} instead of edge.contains(qubit)")
+    rep.check(not bad, "C16.Q9", "Surface17Layer.get_edges", f.loc, found=show(v)[:200], required="[edge for edge in <all device edges> if edge.contains(qubit)]",
+              what="the edges of a qubit are not exactly the device edges that contain it: " + "; ".join(bad), detail="edges-of")
+    # -- Surface17Layer.get_neighbors --------------------------------------------------------------------
+    f = L.resolve("get_neighbors")
+    qn = sym([p for p in f.param_names if p != f.self_name][0])
+    rets, _ = _return_paths(model, f, L)
+    if len(rets) != 1:
+        raise AnalysisError(f"Surface17Layer.get_neighbors: {len(rets)} return paths")
+    v = _as_comp(rets[0], rets[0].value)
+    if v[0] != "comp" or len(v[3]) != 1:
+        raise AnalysisError(f"Surface17Layer.get_neighbors: not read as one scan: {show(v)[:160]}")
+    dom, conds = v[3][0]
+    bad = []
+    b = subterms(v[2], lambda y: y[0] == "bound")
+    edges_call_ok = _is_method_call(dom, "get_edges") and dom[1][1] == s and _args_of(dom) == [qn]
+    direct_ok = dom in table and len(conds) == 1 and _is_method_call(conds[0], "contains") and _args_of(conds[0]) == [qn]
+    if not (edges_call_ok and not conds or direct_ok):
+        bad.append(f"ranges over {show(dom)} {[show(c) for c in conds]} instead of all edges of the qubit")
+    if not (_is_method_call(v[2], "get_connected_qubit_id") and len(b) >= 1 and v[2][1][1] == b[0] and _args_of(v[2]) == [qn]):
+        bad.append(f"yields {show(v[2])} instead of the partner of the qubit on the scanned edge")
+    order_guard = [a for a in atoms_of(rets[0].cond)]
+    rep.check(not bad, "C16.Q9", "Surface17Layer.get_neighbors", f.loc, found=show(v)[:200], required="[edge.get_connected_qubit_id(qubit) for edge in self.get_edges(qubit)]",
+              what="the neighbours of a qubit are not its partners on all its edges: " + "; ".join(bad), detail="neighbours-of")
+    # -- Surface17Layer.get_frequency_group_identifier ---------------------------------------------------
+    f = L.resolve("get_frequency_group_identifier")
+    qn = sym([p for p in f.param_names if p != f.self_name][0])
+    v = Evaluator(model, inline_methods=False).value_of(f, self_cls=L)
+    rep.check(v == ("sub", ("attr", s, "_frequency_group_lookup"), qn), "C16.Q9", "Surface17Layer.get_frequency_group_identifier", f.loc, found=show(v), required="self._frequency_group_lookup[element]",
+              what="the frequency group reported for a qubit is not its table entry", detail="group-of")
+    # -- module-level get_neighbors(element) -----------------------------------------------------------------
+    f = model.function("connectivity_surface_code", "get_neighbors")
+    e_, c_, o_ = (sym(p) for p in f.param_names[:3])
+    rets, _ = _return_paths(model, f)
+    isq, ise = ("isinstance", e_, "IQubitID"), ("isinstance", e_, "IEdgeID")
+    bad = []
+    n_q = n_e = 0
+
+    def dev_call(x, who):
+        return _is_method_call(x, "get_neighbors") and x[1][1] == c_ and dict(x[3]).get("qubit", x[2][0] if x[2] else None) == who and dict(x[3]).get("order", x[2][1] if len(x[2]) > 1 else o_) == o_
+    for p in rets:
+        if subst(p.cond, {isq: FALSE}) == FALSE:
+            n_q += 1
+            if not dev_call(p.value, e_):
+                bad.append(f"qubit case returns {show(p.value)[:100]}")
+        elif subst(p.cond, {ise: FALSE}) == FALSE:
+            n_e += 1
+            val = p.value
+            if val[0] == "call" and val[1] == ("fn", "array_manipulation.unique_in_order"):
+                val = _args_of(val)[0]
+            fm = as_flatmap(p, val) if val[0] == "var" else None
+            if fm is None:
+                cv = _as_comp(p, val)
+                if cv[0] == "comp" and len(cv[3]) == 2 and not cv[3][0][1] and not cv[3][1][1] and cv[2] == ("bound", cv[2][1], cv[2][2], show(cv[3][1][0])) if cv[2][0] == "bound" else False:
+                    fm = (cv[3][0][0], [y for y in subterms(cv[3][1][0], lambda y: y[0] == "bound")][0], cv[3][1][0])
+            if fm is None:
+                raise AnalysisError(f"get_neighbors(edge): union not read: {show(val)[:120]}")
+            dom, bnd, per = fm
+            if dom != ("attr", e_, "qubit_ids"):
+                bad.append(f"edge case ranges over {show(dom)} instead of both qubits of the edge")
+            if not dev_call(per, bnd):
+                bad.append(f"edge case collects {show(per)[:100]} instead of the neighbours of each of its qubits")
+        else:
+            bad.append(f"unexpected return under {show(p.cond)[:80]}")
+    if n_q == 0 or n_e == 0:
+        raise AnalysisError("get_neighbors(element): qubit / edge cases not recognised")
+    rep.check(not bad, "C16.Q9", "get_neighbors", f.loc, found="; ".join(bad) or "qubit -> device neighbours; edge -> neighbours of both its qubits", required="neighbours of a qubit / of BOTH qubits of an edge",
+              what="the spectators of a gate are not the neighbours of both its qubits: " + "; ".join(bad), detail="neighbours-of-edge")
+
+
+# ---------------------------------------------------------------------------------------------
+# Q8 -- the exhaustive statement, decided on the extracted tables in the pinned skeleton
+# ---------------------------------------------------------------------------------------------
+def q8(model: Model, rep: Report):
+    rep.rule("C16.Q8", "with the functions pinned to their skeletons by Q1, Q3..Q7 and Q9, the exhaustive statement is a fact about the literal device tables: evaluated "
+                       "in the checker's own transcription of those skeletons over the extracted tables (no repository code is run), for ALL subsets of up to four of the "
+                       "device edges acceptance == (no shared qubit and no two neighbouring qubits of different gates at one operating level, a gate operating at the "
+                       "level of its lower member), and for every qubit-disjoint subset and every idle qubit requires-parking == (it neighbours the higher member of an "
+                       "active gate and its own level is that gate's operating level)")
+    t = surface_tables(model)
+    qs = list(t["qubits"])
+    groups = t["groups"]
+    if any(groups.get(q) not in ORDER for q in qs):
+        raise AnalysisError("C16.Q8: frequency table incomplete (see C16.Q2)")
+    lv = {q: ORDER[groups[q]] for q in qs}
+    edges = [tuple(e) for e in t["edges"]]
+    eset = [frozenset(e) for e in edges]
+    edges_of = {q: [i for i, e in enumerate(eset) if q in e] for q in qs}
+
+    def partner(i, q):
+        a, b = edges[i]
+        return b if q == a else a
+    nb = {q: [partner(i, q) for i in edges_of[q]] for q in qs}
+
+    def nb_edge(i):
+        out = []
+        for q in edges[i]:
+            for n in nb[q]:
+                if n not in out:
+                    out.append(n)
+        return out
+
+    def moving(q, i):
+        return q in eset[i] and lv[q] > lv[partner(i, q)]
+
+    def first_gate(S, n):
+        for i in S:
+            if n in eset[i]:
+                return i
+        return None
+
+    def req_park(q, S):
+        if not any(q in nb_edge(i) for i in S):
+            return False
+        if any(q in eset[i] for i in S):
+            return False
+        return any(lv[n] > lv[q] and moving(n, first_gate(S, n)) for n in nb[q] if first_gate(S, n) is not None)
+
+    def req_idle(q, S):
+        if not any(q in nb_edge(i) for i in S):
+            return False
+        return any(lv[n] < lv[q] and not moving(n, first_gate(S, n)) for n in nb[q] if first_gate(S, n) is not None)
+
+    def possible(q):
+        return [("idle", q), ("park", q)] + [("gate", i) for i in edges_of[q]]
+
+    def forbidden(i, q):
+        if q in eset[i]:
+            return [o for o in possible(q) if o != ("gate", i)]
+        if q not in nb_edge(i):
+            return []
+        avail = [j for j in edges_of[q] if not (eset[j] & eset[i])]
+        res = [("gate", j) for j in edges_of[q] if j not in avail]
+        if req_park(q, [i]):
+            res.append(("idle", q))
+            res += [("gate", j) for j in avail if not moving(q, j)]
+        if req_idle(q, [i]):
+            res.append(("park", q))
+            res += [("gate", j) for j in avail if moving(q, j)]
+        return res
+    n_e = len(edges)
+    allowed = []
+    for i in range(n_e):
+        forb = {o for q in qs for o in forbidden(i, q)}
+        allowed.append({o for q in qs for o in possible(q)} - forb)
+    ok = [[("gate", j) in allowed[i] for j in range(n_e)] for i in range(n_e)]
+
+    def level(i):
+        return min(lv[q] for q in edges[i])
+
+    def spec_pair(i, j):
+        if i == j:
+            return True
+        if eset[i] & eset[j]:
+            return False
+        return not any(b in nb[a] and level(i) == level(j) for a in edges[i] for b in edges[j])
+    bad: List[str] = []
+    n_sub = n_acc = 0
+    for k in range(1, 5):
+        for S in itertools.combinations(range(n_e), k):
+            n_sub += 1
+            got = all(ok[a][b] for a in S for b in S)
+            want = all(spec_pair(a, b) for a in S for b in S)
+            n_acc += got
+            if got != want and len(bad) < 5:
+                bad.append(f"{{{', '.join('-'.join(edges[i]) for i in S)}}}: accepted={got}, collision-free={want}")
+    rep.check(not bad, "C16.Q8", "Surface17Layer[acceptance over all edge subsets]", t["loc"], found="; ".join(bad) or f"{n_sub} subsets of <= 4 of {n_e} edges, {n_acc} accepted, all agree with the collision rule",
+              required="accepted iff no shared qubit and no neighbouring qubits of two gates at one operating level", what="with today's device tables the acceptance rule and the collision rule disagree: " + "; ".join(bad), detail="acceptance")
+    rep.analysed["C16.Q8 subsets"] = n_sub
+    rep.analysed["C16.Q8 accepted"] = n_acc
+    badp: List[str] = []
+    n_p = 0
+    for k in range(1, 5):
+        for S in itertools.combinations(range(n_e), k):
+            inv = set().union(*(eset[i] for i in S))
+            if len(inv) != 2 * k:
+                continue
+            for q in qs:
+                if q in inv:
+                    continue
+                n_p += 1
+                got = req_park(q, list(S))
+                want = False
+                for i in S:
+                    hi = max(edges[i], key=lambda x: lv[x])
+                    if hi in nb[q] and lv[q] == level(i):
+                        want = True
+                if got != want and len(badp) < 5:
+                    badp.append(f"{q} idle beside {{{', '.join('-'.join(edges[i]) for i in S)}}}: requires parking={got}, collides={want}")
+    rep.check(not badp, "C16.Q8", "Surface17Layer[parking over all disjoint edge subsets]", t["loc"], found="; ".join(badp) or f"{n_p} (idle qubit, gate set) cases agree",
+              required="requires parking iff it neighbours the higher member of an active gate and idles at that gate's operating level",
+              what="with today's device tables the parking rule and the collision rule disagree: " + "; ".join(badp), detail="parking")
+    rep.analysed["C16.Q8 parking cases"] = n_p
+    if n_e >= 24:
+        rep.floor("C16.Q8 subsets of up to four edges", n_sub, 12950)
